@@ -1,4 +1,4 @@
-"""C03 -- extract preserves behaviour or is refused (VGC rules R03.1-R03.6)."""
+"""C03 -- extract preserves behaviour or is refused (VGC rules R03.1-R03.10)."""
 from __future__ import annotations
 
 import ast
@@ -315,6 +315,50 @@ def check(ctx, res) -> None:
                 "region assigns only conditionally (under if/for/while/try) is not returned or not declared global/nonlocal in the new function, "
                 "so the write is lost or raises UnboundLocalError", function=m.qualname)
     res.floor("R03.9", "write-set computations in returns/global/nonlocal deciders", n9, 3)
+
+    # ---- R03.10 comprehension variables are local to the comprehension: the collector removes them from its flow sets
+    # after visiting it, but an OUTER variable of the same name that was read/written before must stay.  Every flow set
+    # that is reduced by the comprehension's target names is re-united with a snapshot taken before the visit.
+    comp_handlers = [v.handler(COLLECTOR, c) for c in ("ListComp", "SetComp", "DictComp", "GeneratorExp")]
+    comp_fn = None
+    for h in comp_handlers:
+        if h is None:
+            continue
+        for c in calls_in(h.node):
+            if is_self_attr(c.func) and c.func.attr in coll.methods and any(
+                    isinstance(x, ast.Attribute) and x.attr == "generators" for x in ast.walk(coll.methods[c.func.attr].node)):
+                comp_fn = coll.methods[c.func.attr]
+        if comp_fn is None and any(isinstance(x, ast.Attribute) and x.attr == "generators" for x in ast.walk(h.node)):
+            comp_fn = h
+    if comp_fn is None:
+        raise AnalysisError("anchor=collector comprehension handler (reads node.generators) not found")
+    body = list(comp_fn.node.body)
+    first_visit = next((i for i, st in enumerate(body) if any(is_self_attr(c.func, "visit") or call_name(c) == "generic_visit" for c in calls_in(st))), None)
+    snaps: Dict[str, str] = {}
+    for i, st in enumerate(body):
+        if first_visit is not None and i >= first_visit:
+            break
+        if isinstance(st, ast.Assign) and isinstance(st.targets[0], ast.Name):
+            src = [x for x in ast.walk(st.value) if is_self_attr(x)]
+            if len(src) == 1:
+                snaps[st.targets[0].id] = src[0].attr
+    n10 = 0
+    for st in walk_local(comp_fn.node):
+        if not (isinstance(st, ast.Assign) and len(st.targets) == 1 and is_self_attr(st.targets[0])):
+            continue
+        attr = st.targets[0].attr
+        subs = [x for x in ast.walk(st.value) if isinstance(x, ast.BinOp) and isinstance(x.op, ast.Sub) and is_self_attr(x.left, attr)]
+        if not subs:
+            continue
+        n10 += 1
+        restored = isinstance(st.value, ast.BinOp) and isinstance(st.value.op, ast.BitOr) and any(
+            isinstance(side, ast.Name) and snaps.get(side.id) == attr for side in (st.value.left, st.value.right))
+        res.add("R03.10", f"{comp_fn.name}|restore:{attr}", restored, f"{comp_fn.unit.rel}:{st.lineno}",
+                f"self.{attr} minus the comprehension's names is re-united with the snapshot taken before the visit" if restored else
+                f"{comp_fn.name} removes the comprehension's target names from self.{attr} without re-uniting it with a snapshot taken before the "
+                "comprehension was visited: an outer variable that merely shares its name with a comprehension variable is forgotten, so extract does "
+                "not pass it in (NameError) or does not pass it back (stale value)", function=comp_fn.qualname)
+    res.floor("R03.10", "flow sets reduced by comprehension targets", n10, 2)
 
     # ---- R03.6 suite walker
     idx.need_class(SUITES)
